@@ -430,12 +430,18 @@ class PeriodicTransform(BaseTransform):
     def fit(self, x):
         return self.forward(x)[0]
 
-    def forward(self, x):
+    def _wrap(self, x):
         y = self.lower + (x - self.lower) % self._width
+        # The interval is half-open: rounding can land exactly on the upper
+        # bound, e.g. for a point a hair below the lower bound
+        return self.xp.where(y >= self.upper, self.lower, y)
+
+    def forward(self, x):
+        y = self._wrap(x)
         return y, self.xp.zeros(y.shape[0], device=get_device(y))
 
     def inverse(self, y):
-        x = self.lower + (y - self.lower) % self._width
+        x = self._wrap(y)
         return x, self.xp.zeros(x.shape[0], device=get_device(x))
 
     def config_dict(self):
